@@ -1,5 +1,6 @@
 import GeosModel.Proofs.Valid.NodeTopo
 import GeosModel.Proofs.Valid.RefInv
+import GeosModel.Proofs.Valid.CrossSymm
 /-!
 # C05 — isValid and isSimple decide the OGC rules exactly
 
@@ -17,7 +18,7 @@ the positive x-axis, its zero is "same ray"; `isAngleGreater` is `compareAngle =
 **SPEC (PARTIAL).**  `Model/Valid/Ref.lean` evaluates the OGC/JTS rules literally with exact predicates; GEOS is tied
 to it by the correspondence stream `valid-grid`.  Proved here about the reference: invariance of the intersection
 rule (codes 5/6) and of the structural rules under translation, and the symmetries of the wedge specification
-(`crossAt` under reversal of either pass and under translation).  The full invariance statement of the property
+(`crossAt` under reversal of either pass, exchange of the two passes, and translation).  The full invariance statement of the property
 (all eight lattice symmetries, ring rotation / reversal, hole / element permutation, for every rule) is kept as
 `C05_ref_invariant_full`; it is checked on every generated case against GEOS itself by the harness' invariance
 oracle, but is **not** proved for the reference evaluator beyond the parts named `…_partial`.
@@ -131,6 +132,18 @@ theorem crossAt_reverse_a (o a0 a1 b0 b1 : Pt) : crossAt o a1 a0 b0 b1 = crossAt
 /-- reversing the direction of travel along the second pass does not change whether the passes cross -/
 theorem crossAt_reverse_b (o a0 a1 b0 b1 : Pt) : crossAt o a0 a1 b1 b0 = crossAt o a0 a1 b0 b1 :=
   Valid.crossAt_swap_b o a0 a1 b0 b1
+
+/-- whether two passes cross does not depend on which of them is called the first: if the edges of `b` are separated by
+the corner of `a`, the edges of `a` are separated by the corner of `b` (needed for permutation of rings / elements) -/
+theorem crossAt_symmetric (o a0 a1 b0 b1 : Pt) (h0 : a0 ≠ o) (h1 : a1 ≠ o) (hb0 : b0 ≠ o) (hb1 : b1 ≠ o) :
+    crossAt o b0 b1 a0 a1 = crossAt o a0 a1 b0 b1 :=
+  Valid.crossAt_symm o a0 a1 b0 b1 h0 h1 hb0 hb1
+
+/-- the same for the C++ function: `isCrossing` is symmetric in its two corners -/
+theorem isCrossing_symmetric (n a0 a1 b0 b1 : Pt) (h0 : a0 ≠ n) (h1 : a1 ≠ n) (hb0 : b0 ≠ n) (hb1 : b1 ≠ n) :
+    isCrossing n b0 b1 a0 a1 = isCrossing n a0 a1 b0 b1 := by
+  rw [Valid.isCrossing_eq_crossAt n b0 b1 a0 a1 hb0 hb1 h0 h1, Valid.isCrossing_eq_crossAt n a0 a1 b0 b1 h0 h1 hb0 hb1]
+  exact Valid.crossAt_symm n a0 a1 b0 b1 h0 h1 hb0 hb1
 
 /-- removing repeated points commutes with translation -/
 theorem dedup_translate (t : Pt) (l : List Pt) : dedup (l.map t.shift) = (dedup l).map t.shift :=
